@@ -27,8 +27,8 @@ WORKERS = 4
 K_REISSUE = "handle:mll-file-number-reissued"           # repaired by /repo ecfdd66 (file_number_offset += n_cgns_files); regression key
 K_CLOSEDSLOT = "handle:cgio-closed-slot-accepted"       # repaired by /repo 137980e (get_cgnsio refuses a closed slot); regression key
 K_FTYPE = "open:adf-file-refused-after-hdf5-default"   # cg_open(READ) of an ADF file fails once the default file type is HDF5
-SPECIAL = {10: "missing", 11: "garbage", 12: "badver", 14: "badbase"}
-LATE = {"badver", "badbase"}
+SPECIAL = {10: "missing", 11: "garbage", 12: "badver", 13: "twovers", 14: "badbase", 15: "badzone", 16: "badver"}   # 16: on HDF5
+LATE = {"badver", "badbase", "twovers", "badzone"}
 
 
 # ----------------------------------------------------------------------------------------------- MLL sessions
@@ -37,17 +37,18 @@ def gen_mll(rng, big=False):
     (only to pick interesting numbers; no verdict depends on it)."""
     nfiles = rng.randint(3, 8)
     be = {i: rng.choice(["adf", "hdf5"]) for i in range(1, nfiles + 1)}
-    setup = ["mk %d %s" % (i, be[i]) for i in be] + ["prep 11 garbage adf", "prep 12 badver adf", "prep 14 badbase hdf5"]
+    setup = ["mk %d %s" % (i, be[i]) for i in be] + ["prep 11 garbage adf", "prep 12 badver adf", "prep 13 twovers adf", "prep 14 badbase hdf5",
+                                                        "prep 15 badzone adf", "prep 16 badver hdf5"]
     ops, classes = [], []
     n_open = n_ent = off = 0
     ent = []                 # mirror of cgns_files: file id or None
-    open_files, issued = {}, []
+    open_files, issued, left = {}, [], []      # left: numbers that refused opens stored through fn (never issued)
     target = rng.choice([3, 5, 8, 8])
     for _ in range(rng.randint(14, 60 if big else 40)):
         r = rng.random()
         free = [i for i in be if i not in open_files.values()]
         if r < 0.45 and free and len(open_files) < target:
-            if rng.random() < 0.2:
+            if rng.random() < 0.3:
                 f = rng.choice(sorted(SPECIAL)); mode = rng.choice("rm")
                 cls = "latefail" if SPECIAL[f] in LATE else "cgiofail"
             else:
@@ -58,8 +59,14 @@ def gen_mll(rng, big=False):
                 ent.append(f if cls == "ok" else None); n_ent += 1
                 if cls == "ok":
                     n_open += 1; fn = n_ent + off; open_files[fn] = f; issued.append(fn)
-                elif n_open == 0:
-                    off += n_ent; ent = []; n_ent = 0
+                else:
+                    # refused AFTER the container was opened: cg_open has already stored this number through fn; it was never
+                    # issued and must be refused like any other number that is not open -- now (other files open or not) ...
+                    dead = n_ent + off
+                    left.append(dead)
+                    if n_open == 0:
+                        off += n_ent; ent = []; n_ent = 0
+                    ops += rng.choice([["get %d" % dead], ["get %d" % dead, "close %d" % dead, "get %d" % dead], ["close %d" % dead], []])
         elif r < 0.7 and open_files:
             fn = rng.choice(sorted(open_files))
             ops.append("close %d" % fn)
@@ -70,10 +77,10 @@ def gen_mll(rng, big=False):
             for g in sorted(open_files):                     # every other open file must still answer for itself
                 ops.append("get %d" % g)
         elif r < 0.85:
-            cand = sorted(open_files) + issued[-6:] + [0, off, off + n_ent + 1, 99]
+            cand = sorted(open_files) + issued[-6:] + left[-6:] + [0, off, off + n_ent + 1, 99]      # ... and later
             ops.append("get %d" % rng.choice(cand))
         else:
-            stale = [x for x in issued if x not in open_files] + [0, 57, off + n_ent + 1]
+            stale = [x for x in issued + left if x not in open_files] + [0, 57, off + n_ent + 1]
             ops.append("close %d" % rng.choice(stale))
             if ops[-1].split()[1].isdigit() and int(ops[-1].split()[1]) in open_files:
                 fn = int(ops[-1].split()[1])
@@ -111,14 +118,22 @@ def mll_oracle(r):
     bad, feats = [], set()
     if r["outcome"] != "ok" or len(r["impl"]) != len(r["ops"]):
         return [(None, {"problem": "crash or missing answers", "outcome": r["outcome"], "answers": len(r["impl"]), "ops": len(r["ops"])})], feats
-    live, ever = {}, set()
+    live, ever, never = {}, set(), set()       # never: numbers refused opens left in the caller's variable
     prev_tab, gens, maxlive = "mll 0 0 0 0", 0, 0
     for op, l in zip(r["ops"], r["impl"]):
         ans, tab = l.split(" | ")[0].split(), l.split(" | ")[1]
         t = op.split()
+        if t[0] in ("get", "close") and int(t[1]) in never and int(t[1]) not in live:
+            feats.add("failed-open-number-used-with-files-open" if live else "failed-open-number-used-alone")
         if t[0] == "open":
+            if ans[1] != "0" and len(ans) >= 5 and ans[4] != "-7":
+                never.add(int(ans[4]))
+                feats.add("refused-behind-cgio")
+            if ans[1] == "0" and len(ans) >= 5 and ans[4] != ans[2]:
+                bad.append((None, {"problem": "cg_open succeeded but the number it stored differs from the one reported", "op": op, "answer": l}))
             if ans[1] == "0":
                 fn = int(ans[2])
+                never.discard(fn)
                 if fn in live:
                     bad.append((None, {"problem": "cg_open returned the number of a file that is still open", "op": op, "answer": l}))
                 elif fn in ever:
